@@ -89,4 +89,7 @@ def plan(tier, seed, rng):
     for cfg in std_configs(tier, seed):
         for ch in chunks(cases, per):
             units.append(Unit("C01", cfg, ch, ["props/c01.h"], max_success=30 if tier == "quick" else 40))
+    if tier == "thorough":
+        from vf.core import thin_units
+        units = thin_units(units, seed, 0.6, 0.2)
     return units
